@@ -35,6 +35,21 @@ CLAIMED = {
         "text": "Structural clauses of subtree extraction and pruning: the survivors' columns are gathered for the source's whole key set with the one old-id mapping returned by the compaction call, id/pid come from that call, and the reported mapping (list or dict form) is filled from the same value; the start node's parent is reset to -1 on every path to the return; compaction filters ids and parents with the same keep mask, builds old->new after filtering, maps -1 to -1; the removal marker is negative and not -1 and is inherited by descendants through the traversal's enter value; selection rules (pre-order descendants from the start node, exactly the given ids marked, cut_tree enter/leave wrappers, CutByType ancestor-keeping, furcation-order level table and cut threshold) are decided as small decision tables; recursion-free; source untouched and result fresh (ownership interpreter).",
         "note": ASSUME,
     },
+    "C07": {
+        "technique": "ownership interpretation + AST def-use rules (shift pair, sentinel restore, axis-family substitution) + CFG must-pass",
+        "text": "Re-rooting: works on a copy (ownership interpreter), collects the chain new root -> old root by following parents, stores only pid and type (exactly three stores: root marker, two-end type exchange, reversal of the chain's parent pointers). Concatenation: both inputs copied, second tree re-rooted at its junction without renumbering, the three translation statements are one family under the x->y->z substitution, id and parent id of the second tree are shifted by the same expression (the first tree's node count), link/removal targets are computed before the shift and cover the shifted root marker in both the merge and the non-merge arm, columns are appended first-tree-first for every key, and every return passes the renumbering routine.",
+        "note": ASSUME,
+    },
+    "C08": {
+        "technique": "def-use rule on the post-order accumulator (pending-chain flush) + child-count decision tables (constant folding over k = 0..4)",
+        "text": "The branch accumulation is checked as an accumulator protocol: pass-through <=> exactly one child (table), a pass-through node extends the open chain, every other node closes one branch per child chain and opens a new chain, and the chain still open at the outermost call must be consumed into a branch (the stem of a one-child root). All copies of the child-count predicates (Tree.get_furcations, Node.is_furcation, tips, CutShortTipBranch, Node.branch) are tabulated over k = 0..4 and compared with 'two or more' / 'none' / 'exactly one'. Paths: each node's path is a copy of its parent's plus itself, tips return their own path. Branch tree: end nodes parented to start nodes, original branches filed under the new id of their start.",
+        "note": ASSUME,
+    },
+    "C09": {
+        "technique": "index-space typing of view constructions (receiver-type inference with Generic parameter binding) + ownership interpretation + decision tables for index normalisation",
+        "text": "Every construction of a Node/Path/Branch/Compartment view in the package is typed: an .id/.pid read from a node of a view is an id of the view's owner and may not be used as a position inside the view. Accessors of all sibling view classes are owner.get_ndata(key)[idx]; node properties read and write the same column. Ownership interpreter: the tree's accessor returns the owner's storage, a store through a tree node reaches it, detach() of every view class and copy() return storage disjoint from the original. The integer-index arms of Tree/Path/population are folded over keys {-7,-6,-5,-1,0,4,5,6} at n=5 against the normalisation table; slices go through slice.indices(len).",
+        "note": ASSUME,
+    },
 }
 
 NOT_BUILT = "check not built yet in this round (planned, see DESIGN.md section 4); nothing is claimed"
